@@ -460,9 +460,9 @@ def sup_numbers(ob):
             if e is None:
                 continue
             if l + 1 < L:
-                out += enc(fs[l + 1], e['children']) + enc(fs[L - 1], e['grandchildren'])
+                out += enc(fs[l + 1], e['children']) + enc(fs[min(L - 1, l + 2)], e['grandchildren'])
             if l >= 1:
-                out += enc(fs[l - 1], e['parents']) + enc(fs[0], e['grandparents'])
+                out += enc(fs[l - 1], e['parents']) + enc(fs[max(0, l - 2)], e['grandparents'])
     return out
 
 
@@ -489,13 +489,13 @@ def check_support_queries(cfg, ob):
 
         def inside(b, bs):
             return any(all(lo2 <= lo1 and hi1 <= hi2 for (lo1, hi1), (lo2, hi2) in zip(b, pb)) for pb in bs)
-        for name, lt in (('children', l + 1), ('grandchildren', L - 1)):
+        for name, lt in (('children', l + 1), ('grandchildren', min(L - 1, l + 2))):
             for ch in e.get(name, []):
                 if not inside(g.func_block(lt, ch), pblocks):
                     return ('children-outside-parent', 'function_%s(%d, %s) contains %s whose support is not inside the support of a parent' % (name, l, q['funcs'][l], ch))
         if 'children' in e and not e['children']:
             return ('no-children', 'function_children(%d, %s) is empty' % (l, q['funcs'][l]))
-        for name, lt in (('parents', l - 1), ('grandparents', 0)):
+        for name, lt in (('parents', l - 1), ('grandparents', max(0, l - 2))):
             for pa in e.get(name, []):
                 pb = g.func_block(lt, pa)
                 if not any(all(lo2 <= lo1 and hi1 <= hi2 for (lo1, hi1), (lo2, hi2) in zip(b, pb)) for b in pblocks):
@@ -915,11 +915,15 @@ META = {
                   '(entry (i,j) = 1 iff function i is non-zero on active cell j, canonical indexing), cell_function_queries_agree, '
                   'support_queries_dual, cell/function_support_extension_is_support_extension (the queries are the sets their names say), '
                   'marking_closure_closed (the refined marks are closed under the disparity neighbourhood, default and truncated marking), '
-                  'disparity_admissible_partial_cells (cell-level condition implies admissibility) + admissible_iff_incidence. '
-                  'NOT PROVED: that every reachable state satisfies the cell condition (needs nestedness of support extensions across '
-                  'levels; admissibility itself is explored on the implementation after every call); THB partition of unity / '
+                  'disparity_admissible_partial_cells (cell-level condition implies admissibility) + admissible_iff_incidence, '
+                  'children_inside_parent_support, children_closed (children of a deactivated function are active or deactivated on the '
+                  'next level), every_function_has_parent, support_extensions_nested, and DISPARITY_ADMISSIBLE: for every finite d >= 1 and '
+                  'every history of valid calls with the default marking (valid axes, all knot multiplicities >= 1) no active function of '
+                  'level k is non-zero on an active cell of level > k + d. '
+                  'NOT PROVED: admissibility for the truncated marking variant (refine(..., truncate=True)); THB partition of unity / '
                   'non-negativity, HB<->THB inverse / same space, linear independence (tie and oracle only, bound 1e-8). boundary(), '
-                  'Dirichlet and smoothing (new, cell_supp, global) index lists are modelled and compared exactly, without theorems.',
+                  'Dirichlet and smoothing (new, cell_supp, global) index lists, hmesh_cells/compute_supports and function_children/parents '
+                  'are modelled and compared exactly; the support-query model (Supports.v) has no theorems yet.',
     'level_note': 'Trusted: Coq kernel + vm_compute; hand transcription of pyiga/hierarchical.py (per-level closed form of the two '
                   'loops of HSpace.refine) validated by the exact correspondence run; harness generators, bit-mask encoding of sets '
                   '(injective for duplicate-free sets inside the index box; sizes compared too), geometric oracle. Not modelled: '
